@@ -270,7 +270,7 @@ def opRb (x : B) : Outcome String := do
 
 -- ---------------------------------------------------------------- tables
 
-def opTbl : String :=
+def opTbl (pre : List String) (mid : List String) : String :=
   let e : List String := [
     s!"v2.prefix={hexOf sig}",
     s!"ver.two={Version.two.code.toNat}" ]
@@ -292,6 +292,6 @@ def opTbl : String :=
     ("Partial", .partialHdr 1 2), ("InvalidAddresses", .invalidAddresses 1 12),
     ("InvalidTLV", .invalidTLV 1 2), ("Leftovers", .leftovers 2)]
   let inc2 := v2errs.map fun (n, er) => s!"inc2.{n}={b01 er.isIncomplete}{b01 (!er.isIncomplete)}"
-  ";".intercalate (e ++ cmds ++ fams ++ trs ++ types ++ inc2)
+  ";".intercalate (pre ++ e ++ cmds ++ fams ++ trs ++ types ++ mid ++ inc2)
 
 end Driver
